@@ -32,6 +32,8 @@ pub fn enum_rename(_s: u64) -> Vec<String> {
         mk_list(&[v0("$X"), atom("a"), v0("$X")], None),
         mk_list(&[atom("a"), mk_list(&[v0("$Y")], None)], None),
         mk_list(&[atom("a")], Some(v0("$T"))),
+        mk_list(&[atom("a")], Some(Anonymous)),                         // [a | $_]
+        mk_list(&[v0("$H"), Anonymous], Some(Anonymous)),               // [$H, $_ | $_]
         mk_list(&[mk_list(&[atom("b")], Some(v0("$T")))], Some(v0("$T"))),
         SComplex(vec![atom("f"), v0("$X"), v0("$Y"), v0("$X"), SFloat(1.5), SInteger(-3), Anonymous]),
         SComplex(vec![atom("f"), empty(), mk_list(&[v0("$X")], Some(v0("$Y")))]),
